@@ -5,15 +5,17 @@
 (*                                                                          *)
 (* An operator is a record with field k in                                  *)
 (*   "single" (optional thr), "multi" (p), "pflood", "mst" (m, r),          *)
-(*   "snap" (name, sg, se).                                                 *)
+(*   "snap" (name, sg, se),                                                *)
+(*   "inject" (d, rec, w8, sd): a user-defined router (the library's        *)
+(*   extension point) that installs a given receiver table of direction d.  *)
 EXTENDS Util
 
 OpKinds == {"single", "multi", "pflood", "mst", "snap"}
 
-GraphUpdated(op) == op.k \in {"single", "multi", "mst"}
+GraphUpdated(op) == op.k \in {"single", "multi", "mst", "inject"}
 ElevUpdated(op) == op.k \in {"pflood", "mst"}
 InDir(op) == IF op.k = "mst" THEN "single" ELSE "undefined"
-OutDir(op) == CASE op.k \in {"single", "mst"} -> "single" [] op.k = "multi" -> "multi" [] OTHER -> "undefined"
+OutDir(op) == CASE op.k \in {"single", "mst"} -> "single" [] op.k = "multi" -> "multi" [] op.k = "inject" -> op.d [] OTHER -> "undefined"
 SavesGraph(op) == op.k = "snap" /\ op.sg = 1
 SavesElev(op) == op.k = "snap" /\ op.se = 1
 
@@ -64,7 +66,7 @@ GraphKeys(ops) == SelectSeq([i \in DOMAIN ops |-> IF SavesGraph(ops[i]) THEN ops
 ElevKeys(ops) == SelectSeq([i \in DOMAIN ops |-> IF SavesElev(ops[i]) THEN ops[i].name ELSE ""], LAMBDA x : x # "")
 OpName(op) == CASE op.k = "single" -> "single_flow_router" [] op.k = "multi" -> "multi_flow_router"
                 [] op.k = "pflood" -> "pflood_sink_resolver" [] op.k = "mst" -> "mst_sink_resolver"
-                [] op.k = "snap" -> "flow_snapshot"
+                [] op.k = "snap" -> "flow_snapshot" [] op.k = "inject" -> "inject_router"
 
 \* the refinement checked by TLC on every sequence of bounded length (MCOperatorSeq)
 AddRefinesValid(ops) ==
